@@ -6,7 +6,7 @@ ID = "C20"
 LEVEL = "proof"
 PROPS_FILE = "C20.v"
 RUN_MODULE = "RunC20"
-TRANSLATOR_UNITS = []
+TRANSLATOR_UNITS = ["format"]
 RULE = ("fmt: the whole accepted grammar fill{none,' ','*','0','x'} x align{none,<,>,=} x sign x '#' x '0' x "
         "width{none,1,5,12} x '_' x type{none,b,o,d,x,X,c,s} (16384 specs, each with a shape that accepts it when one "
         "exists, 8% with a rejecting shape) x boundary/random values (1 per spec quick, 6 thorough), model py_format vs "
